@@ -9,6 +9,7 @@ MCFam       == [i \in PeerIPs |-> IF i \in {"X", "Y"} THEN 6 ELSE 4]
 MCListenFam == [c \in Clients |-> IF c = "c6" THEN 6 ELSE 4]
 MCDenied    == {<<"c1", "B">>}
 MCNoDenied  == {}
+MCVetoable  == {<<"c1", "A">>}
 MCDeniedV6  == {<<"c6", "Y">>, <<"c1", "A">>}      \* the operator's handler refuses an IPv6 peer (and an IPv4 one)
 MCPermSeqs1 == {<<i>> : i \in PeerIPs}
 MCPermSeqs2 == MCPermSeqs1 \cup {<<"A", "B">>, <<"B", "A">>, <<"A", "X">>}
@@ -31,6 +32,6 @@ ASSUME PrintT("META " \o ToJson([DefaultLife |-> DefaultLife, PermTO |-> PermTO,
 
 \* Engine A: print every edge of the state graph (also those into states already seen)
 EmitEdge ==
-  PrintT("EDGE " \o ToJson([s |-> <<alloc, perm, chan, resv>>, a |-> last', o |-> out',
-                            t |-> <<alloc', perm', chan', resv'>>]))
+  PrintT("EDGE " \o ToJson([s |-> <<alloc, perm, chan, resv, veto>>, a |-> last', o |-> out',
+                            t |-> <<alloc', perm', chan', resv', veto'>>]))
 =============================================================================
